@@ -312,19 +312,19 @@ func checkIgnoreLists(r *core.Run) {
 // accumulatesAll: v is a slice built by appending, in a range loop over X, on every iteration except those
 // that skip because a record was not found (or that leave the enclosing iteration altogether).
 func accumulatesAll(r *core.Run, fn *ssa.Function, v ssa.Value) (bool, string) {
-	res := r.Resolver(fn)
-	web := phiWeb(v)
+	// the appends may lie in a helper that collects the list (alone or as a field of a local result struct)
+	org := listOriginOf(r, fn, v)
 	var appends []*ssa.Call
-	for x := range web {
-		if c, ok := x.(*ssa.Call); ok {
-			if bi, ok := c.Call.Value.(*ssa.Builtin); ok && bi.Name() == "append" {
-				appends = append(appends, c)
-			}
-		}
+	for _, s := range org.Sites {
+		appends = append(appends, s.App)
 	}
 	if len(appends) == 0 {
 		return false, "no append feeds the list"
 	}
+	if fn = org.Fn(); fn == nil {
+		return false, "the appends feeding the list are spread over several functions"
+	}
+	res := r.Resolver(fn)
 	for _, l := range cfgx.Loops(fn) {
 		inLoop := false
 		appB := map[*ssa.BasicBlock]bool{}
